@@ -411,6 +411,14 @@ def tagsOf (f : Font) (o : String) : List String :=
   (if f.info.isEmpty && f.lib.isEmpty && f.groups.isEmpty && f.kerning.isEmpty && f.features.isEmpty &&
       f.layers.length ≤ 1 && f.data.isEmpty && f.images.isEmpty then [] else ["nt"])
 
+/-- the point-type statistics of the harness (`pt=m..l..o..c..q..s..a..`) as distribution tags -/
+def ptTags (s : String) : List String :=
+  let num (p : String) : Nat := ((s.splitOn ".").find? (·.startsWith p)).bind (fun t => (t.drop 1).toString.toNat?) |>.getD 0
+  (if num "m" > 0 then ["contour-open"] else []) ++ (if num "l" > 0 then ["pt-line"] else []) ++
+  (if num "o" > 0 then ["pt-offcurve"] else []) ++ (if num "c" > 0 then ["pt-curve"] else []) ++
+  (if num "q" > 0 then ["pt-qcurve"] else []) ++ (if num "a" > 0 then ["contour-all-offcurve"] else []) ++
+  (if num "s" > 0 then ["seam-offcurves-" ++ toString (min (num "s") 6)] else [])
+
 def firstDiff (a b : List String) : String :=
   match (a.zip b).find? (fun e => e.1 ≠ e.2) with
   | some e => "model " ++ (e.1.take 300).toString ++ " impl " ++ (e.2.take 300).toString
@@ -428,7 +436,7 @@ def run (inp obs : List String) : Verdict :=
   | none => { agree := false, model := "unparsable-input" }
   | some f =>
     let o := (field toks "o").getD "?"
-    let tags := tagsOf f o ++ ["target-" ++ (field toks "t").getD "absent"]
+    let tags := tagsOf f o ++ ["target-" ++ (field toks "t").getD "absent"] ++ ptTags ((field obs "pt").getD "")
     let saveObs := (field obs "save").getD "?"
     let loadObs := (field obs "load").getD "?"
     let cls (s : String) : String := if s.startsWith "err" then "err" else s
